@@ -103,8 +103,8 @@ def run(ctx):
     if f:
         T = tpl.Templates(f)
         txt = " ".join(T.render(T.root_streams()[-1])) if T.root_streams() else ""
-        single = re.search(r"=> \{ if ! ⟨&proc_macro2::Ident⟩ \. 0 \{ ⟨&proc_macro2::Ident⟩ = \( true , __errors \. handle \( .*? \) \) ; \} else \{ __errors \. push \( :: darling :: Error :: duplicate_field \(", txt)
-        multi = re.search(r"=> \{ let __len = ⟨&proc_macro2::Ident⟩ \. len \( \) ; if let :: darling :: export :: Some \( __val \) = __errors \. handle \( .*? \) \{ ⟨&proc_macro2::Ident⟩ \. push \( __val \) \} \}", txt)
+        single = re.search(r"=> \{ if ! ⟨proc_macro2::Ident⟩ \. 0 \{ ⟨proc_macro2::Ident⟩ = \( true , __errors \. handle \( .*? \) \) ; \} else \{ __errors \. push \( :: darling :: Error :: duplicate_field \(", txt)
+        multi = re.search(r"=> \{ let __len = ⟨proc_macro2::Ident⟩ \. len \( \) ; if let :: darling :: export :: Some \( __val \) = __errors \. handle \( .*? \) \{ ⟨proc_macro2::Ident⟩ \. push \( __val \) \} \}", txt)
         ctx.ob("C02.H.duplicate-vs-extract", f.key, "single-value arm", bool(single), "template: %s" % txt[:600])
         ctx.ob("C02.H.multiple-handle", f.key, "multiple arm", bool(multi), "template: %s" % txt[:600])
         ctx.ob("C02.H.arm-no-exit", f.key, "no early exit in match arm", not re.search(r"\breturn\b|\bbreak\b| \? ", txt), "template must not leave the item loop")
